@@ -63,11 +63,22 @@ pub(crate) fn format(src: &str, path: &Path) -> String {
     // Phase 4: Apply span edits first (single-line block spacing)
     let src_after_spans = apply_span_edits(src, &mut visitor.span_edits);
 
+    // Lines that begin inside a multi-line string literal. Their
+    // text is part of the string's value, so the line-based phases
+    // below must leave them alone. Neither phase adds or removes
+    // lines inside a string, so the same line numbers apply to both.
+    let in_string_lines = lines_starting_in_string(&src_after_spans, &vfs_path);
+
     // Phase 5: Apply indentation edits
-    let src_after_indent = apply_indentation_edits(&src_after_spans, &visitor.line_edits);
+    let src_after_indent =
+        apply_indentation_edits(&src_after_spans, &visitor.line_edits, &in_string_lines);
 
     // Phase 6: Normalize blank lines
-    let src_after_blanks = normalize_blank_lines(&src_after_indent, &visitor.toplevel_start_lines);
+    let src_after_blanks = normalize_blank_lines(
+        &src_after_indent,
+        &visitor.toplevel_start_lines,
+        &in_string_lines,
+    );
 
     // Phase 7: Fix type annotation spacing
     let src_after_types = fix_type_annotation_spacing(&src_after_blanks, &vfs_path);
@@ -683,9 +694,59 @@ fn collect_comment_edits(
     }
 }
 
+/// The zero-indexed numbers of the lines that begin inside a string
+/// literal, i.e. every line after the first of a multi-line string.
+fn lines_starting_in_string(
+    src: &str,
+    vfs_path: &crate::parser::vfs::VfsPathBuf,
+) -> FxHashSet<usize> {
+    let (mut token_stream, _) = lex_between(vfs_path, src, 0, src.len());
+
+    let mut line_numbers = FxHashSet::default();
+    while let Some(token) = token_stream.pop() {
+        if !token.text.starts_with('"') {
+            continue;
+        }
+
+        let newlines = token.text.matches('\n').count();
+        for i in 1..=newlines {
+            line_numbers.insert(token.position.line_number + i);
+        }
+    }
+
+    line_numbers
+}
+
+/// Split `src` into lines without their line endings, like
+/// `str::lines`. A carriage return before a newline is kept when the
+/// newline is inside a string literal, because it is part of the
+/// string's value.
+fn split_lines<'a>(src: &'a str, in_string_lines: &FxHashSet<usize>) -> Vec<&'a str> {
+    let mut lines: Vec<&str> = src.split('\n').collect();
+
+    // Every line is followed by a newline, except for the last one.
+    let last_line = lines.pop().unwrap_or("");
+
+    for (i, line) in lines.iter_mut().enumerate() {
+        if !in_string_lines.contains(&(i + 1)) {
+            *line = line.strip_suffix('\r').unwrap_or(line);
+        }
+    }
+
+    if !last_line.is_empty() {
+        lines.push(last_line);
+    }
+
+    lines
+}
+
 /// Apply indentation edits to the source while preserving blank lines.
-fn apply_indentation_edits(src: &str, line_edits: &[LineEdit]) -> String {
-    let lines: Vec<&str> = src.lines().collect();
+fn apply_indentation_edits(
+    src: &str,
+    line_edits: &[LineEdit],
+    in_string_lines: &FxHashSet<usize>,
+) -> String {
+    let lines = split_lines(src, in_string_lines);
     let mut result = String::with_capacity(src.len());
 
     // Create a map for O(1) lookup
@@ -695,7 +756,15 @@ fn apply_indentation_edits(src: &str, line_edits: &[LineEdit]) -> String {
     }
 
     for (line_num, line) in lines.iter().enumerate() {
-        if let Some(edit) = edits_map.get(&line_num) {
+        // Leading whitespace on a line that begins inside a string
+        // literal is part of the string, not indentation.
+        let edit = if in_string_lines.contains(&line_num) {
+            None
+        } else {
+            edits_map.get(&line_num)
+        };
+
+        if let Some(edit) = edit {
             // Strip existing indentation and add correct amount
             let trimmed = line.trim_start();
 
@@ -751,11 +820,18 @@ fn apply_span_edits(src: &str, span_edits: &mut [SpanEdit]) -> String {
 ///
 /// - Before non-import toplevel definitions: exactly one blank line
 /// - Inside blocks: at most one blank line between lines
-fn normalize_blank_lines(src: &str, toplevel_start_lines: &[usize]) -> String {
-    let lines: Vec<&str> = src.lines().collect();
+fn normalize_blank_lines(
+    src: &str,
+    toplevel_start_lines: &[usize],
+    in_string_lines: &FxHashSet<usize>,
+) -> String {
+    let lines = split_lines(src, in_string_lines);
     if lines.is_empty() {
         return src.to_owned();
     }
+
+    // Blank lines inside a string literal are part of its value.
+    let is_blank = |i: usize| lines[i].trim().is_empty() && !in_string_lines.contains(&i);
 
     let toplevel_lines: FxHashSet<usize> = toplevel_start_lines.iter().copied().collect();
     let mut result = String::with_capacity(src.len());
@@ -765,9 +841,9 @@ fn normalize_blank_lines(src: &str, toplevel_start_lines: &[usize]) -> String {
         let line = lines[i];
 
         // If this line is blank
-        if line.trim().is_empty() {
+        if is_blank(i) {
             // Count consecutive blank lines
-            while i < lines.len() && lines[i].trim().is_empty() {
+            while i < lines.len() && is_blank(i) {
                 i += 1;
             }
 
@@ -789,7 +865,8 @@ fn normalize_blank_lines(src: &str, toplevel_start_lines: &[usize]) -> String {
         // (lines starting with `//`) on the previous line are considered
         // attached to the following item, so no blank line is inserted.
         if i < lines.len()
-            && !lines[i].trim().is_empty()
+            && !is_blank(i)
+            && !in_string_lines.contains(&i)
             && toplevel_lines.contains(&i)
             && !line.trim_start().starts_with("//")
         {
